@@ -74,6 +74,7 @@ type world struct {
 
 	gw, gi, repeat, retention time.Duration
 	srs                       []bool
+	limit                     int // MaxNumberOfAggregationGroups (0 = unlimited)
 
 	nots     []*fakeNotifier
 	alerts   *mem.Alerts
@@ -161,6 +162,10 @@ func (n *fakeNotifier) Notify(ctx context.Context, as ...*alert.Alert) (bool, er
 	n.w.record(gshort(gkey), "sent", n.idx, hx.Join(f, ".")+"/"+hx.Join(r, "."))
 	return false, nil
 }
+
+type groupLimit int
+
+func (l groupLimit) MaxNumberOfAggregationGroups() int { return int(l) }
 
 type sr bool
 
@@ -296,7 +301,7 @@ func (w *world) startDispatcher() {
 		}
 		return d
 	}
-	w.disp = dispatch.NewDispatcher(w.alerts, route, recStage{w, pipe}, gm, timeout, 15*time.Second, nil, logger, rec, nil, nil)
+	w.disp = dispatch.NewDispatcher(w.alerts, route, recStage{w, pipe}, gm, timeout, 15*time.Second, groupLimit(w.limit), logger, rec, nil, nil)
 	go w.inh.Run()
 	w.inh.WaitForLoading()
 	go w.disp.Run(time.Now())
@@ -475,6 +480,8 @@ func runCase(t *testing.T, tr *hx.Trace, id int, r *rand.Rand, script []string) 
 					w.repeat = time.Duration(hx.Atoi64(kv[1]))
 				case "retention":
 					w.retention = time.Duration(hx.Atoi64(kv[1]))
+				case "limit":
+					w.limit, _ = strconv.Atoi(kv[1])
 				case "sr":
 					for _, c := range kv[1] {
 						w.srs = append(w.srs, c == '1')
@@ -496,7 +503,10 @@ func runCase(t *testing.T, tr *hx.Trace, id int, r *rand.Rand, script []string) 
 					srs += "0"
 				}
 			}
-			header = fmt.Sprintf("case %d gw=%d gi=%d repeat=%d retention=%d sr=%s", id, int64(w.gw), int64(w.gi), int64(w.repeat), int64(w.retention), srs)
+			// the aggregation-group limit: with two possible groups a limit of 2 or 3 never binds in a correct
+			// dispatcher (the counter follows the map); a limit of 1 makes the second group wait for the first to go
+			w.limit = hx.Pick(r, []int{0, 0, 1, 2, 2, 3})
+			header = fmt.Sprintf("case %d gw=%d gi=%d repeat=%d retention=%d limit=%d sr=%s", id, int64(w.gw), int64(w.gi), int64(w.repeat), int64(w.retention), w.limit, srs)
 		}
 		for i := range w.srs {
 			w.nots = append(w.nots, &fakeNotifier{w: w, idx: i, mode: "ok"})
@@ -567,7 +577,7 @@ func runCase(t *testing.T, tr *hx.Trace, id int, r *rand.Rand, script []string) 
 				do(fmt.Sprintf("mode %d %d %s %d", now, r.IntN(len(w.srs)), mode, lat))
 			case x < 90:
 				do(fmt.Sprintf("nfgc %d", now))
-			case x < 93:
+			case x < 93 && w.limit != 1:
 				// a config reload cancels in-flight flushes; the generator restarts only when
 				// every integration answers at once, so that no flush is in flight
 				for i := range w.srs {
